@@ -42,7 +42,7 @@ Lower(s) == IF s \in DOMAIN F.lower THEN F.lower[s] ELSE s
 \*   scheme u.Scheme           norm  u.String(), white space around it trimmed       empty  norm = ""
 Url(v) == F.url[v]
 
-\* link hardening treats the href as external: url.Parse(v) finds a host, or cannot parse v at all
+\* link hardening treats the href as external: url.Parse of v (white space around it ignored) finds a host, or cannot parse it at all
 \* (evaluated on whatever value the href has at that point)
 HasHost(v) == F.host[v]
 
